@@ -286,6 +286,8 @@ static int should_fail(const char *file, const char *func)
 
 extern void __sanitizer_print_stack_trace(void) __attribute__((weak));
 static long g_bt_alloc = -2;
+static uint32_t *g_site_trace; static size_t g_site_trace_max;
+void vsim_alloc_site_trace(uint32_t *buf, size_t max) { g_site_trace = buf; g_site_trace_max = max; }
 static void *do_alloc(size_t n, int zero, const char *file, const char *func, int line)
 {
     vsim_sched_point(1);
@@ -293,6 +295,7 @@ static void *do_alloc(size_t n, int zero, const char *file, const char *func, in
     if (g_bt_alloc >= 0 && (long) g_alloc_idx == g_bt_alloc && __sanitizer_print_stack_trace) { dprintf(2, "VSIM allocation #%ld (%zu bytes):\n", g_bt_alloc, n); __sanitizer_print_stack_trace(); }
     int fail = should_fail(file, func);
     uint64_t idx = g_alloc_idx++;
+    if (g_site_trace && idx < g_site_trace_max) { g_site_trace[idx] = (uint32_t) (vsim_fnv(file ? file : "?", file ? strlen(file) : 1) * 31u + (uint32_t) line); }
     g_alloc_total++;
     if (n > g_max_req) { g_max_req = n; }
     if (fail)
